@@ -318,6 +318,12 @@ func checkC09(c *Ctx) {
 			r.OK("C09.10", "removeRegistration: tolerates a record that is already gone", rem.Pos(), fmt.Sprintf("%d field reads, each behind a found-test", nUse))
 		} else {
 			// single remover: one static chain main-sweeper -> RemoveOldRegistrations -> removeOldRegistrations -> removeRegistration
+			startedByMain := map[*ssa.Function]bool{}
+			if mainFn := c.P.Func(repoMod+"/cmd/application", "", "main"); mainFn != nil {
+				for fn := range goStarted(mainFn) {
+					startedByMain[fn] = true
+				}
+			}
 			type link struct{ callee, caller string }
 			chain := []link{{"removeRegistration", "removeOldRegistrations"}, {"removeOldRegistrations", "RemoveOldRegistrations"}, {"RemoveOldRegistrations", "main$"}}
 			okk := true
@@ -331,7 +337,7 @@ func checkC09(c *Ctx) {
 							continue
 						}
 						sites = append(sites, fnName(f))
-						matches := strings.HasSuffix(fnName(f), "."+l.caller) || (l.caller == "main$" && strings.Contains(fnName(f), "cmd/application.main$"))
+						matches := strings.HasSuffix(fnName(f), "."+l.caller) || (l.caller == "main$" && (strings.Contains(fnName(f), "cmd/application.main$") || startedByMain[f]))
 						if !matches {
 							okk = false
 							pos = ci.Pos()
@@ -355,11 +361,13 @@ func checkC09(c *Ctx) {
 					if !ok {
 						return
 					}
-					mc, ok := g.Call.Value.(*ssa.MakeClosure)
-					if !ok {
-						return
+					var fn *ssa.Function
+					if mc, ok := g.Call.Value.(*ssa.MakeClosure); ok {
+						fn, _ = mc.Fn.(*ssa.Function)
+					} else {
+						fn = g.Call.StaticCallee()
 					}
-					if fn, ok := mc.Fn.(*ssa.Function); ok && len(callsIn(fn, shortIs("RemoveOldRegistrations"))) > 0 {
+					if fn != nil && fn.Blocks != nil && len(callsIn(fn, shortIs("RemoveOldRegistrations"))) > 0 {
 						if again, _ := reach(mainFn, g, isInstr(g), nil, nil); again {
 							okk = false
 							why = append(why, "the sweeper goroutine is started in a loop")
@@ -682,6 +690,11 @@ func checkC09(c *Ctx) {
 		// the sweeper goroutine: closure in main that calls RemoveOldRegistrations
 		for _, a := range mainFn.AnonFuncs {
 			if len(callsIn(a, shortIs("RemoveOldRegistrations"))) > 0 {
+				pipeline = append(pipeline, a)
+			}
+		}
+		for a := range goStarted(mainFn) {
+			if a.Parent() == nil && len(callsIn(a, shortIs("RemoveOldRegistrations"))) > 0 {
 				pipeline = append(pipeline, a)
 			}
 		}
